@@ -123,6 +123,9 @@ func c01BigWriteBody(x *engine.X) {
 	if received != gotN {
 		x.Fail(kind+".bigwrite/count-vs-moved", "the write reported %d bytes, the peer received %d", gotN, received)
 	}
+	if got := d.ioc.Dispatched; got != 0 {
+		x.Fail("io.Dispatched/not-zero-at-top-level", "after a %d-byte write that parked and was resumed by the poller, with no callback on the stack, IO.Dispatched=%d", size, got)
+	}
 	if p := d.ioc.Pending(); p != 0 {
 		x.Fail("io.Pending/bigwrite/count", "Pending()=%d after the write completed", p)
 	}
